@@ -6,13 +6,13 @@ import shutil
 
 from fv import common, design, tlc
 
-INVARIANTS = ["SubsetReproduces", "ShapeOK", "GroupBlock", "Export"]
+INVARIANTS = ["SubsetReproduces", "ShapeOK", "GroupBlock", "UnseenTheorem", "Export"]
 PROPERTIES = ["PermEquivariant", "NATheorem", "UnusedIgnored"]
 
 
 def _props_for(case, clause, part):
     if case["phase"] == "evaluated":
-        return ["C06"]
+        return ["C10"] if case["res"].get("status") == "unseen" else ["C06"]
     if case["opn"] == 1:
         return ["C08"]
     if case["opn"] == 2:
@@ -67,8 +67,10 @@ def _replay(args):
         for clause, part, detail in design.compare_design(d, obs, names, len(d["rows"])):
             out.append((_props_for(case, clause, part), {"clause": clause, "part": part, "site": "design_matrices"}, dict(base, detail=detail)))
         return out, 0
-    # evaluated: new data = rows of the training frame
     res = case["res"]
+    if res.get("status") == "unseen":
+        return _replay_unseen(case, res, df, dm, names, base, variant, style), 0
+    # evaluated: new data = rows of the training frame
     sel = [s - 1 for s in res["sel"]]
     new = df.iloc[sel].reset_index(drop=True)
     for part, want in (("common", res["common"]), ("group", res["group"])):
@@ -85,26 +87,110 @@ def _replay(args):
     return out, 0
 
 
-def run(rep, prop, seed, n=3, nf=3, ng=2, xfull=False, naops=False, permops=False, maxsel=0, timeout=3000):
+def _replay_unseen(case, res, df, dm, names, base, variant, style):
+    """New data with unseen levels under a mode (C10)."""
+    import warnings
+
+    from formulae import config
+
+    out = []
+    nf = res["newframe"]
+    names2 = list(names) + ["zz"] * 10
+    names2[8] = "NEWLEVEL"  # code 9
+    design.LEVEL_POOLS.append(names2)
+    try:
+        new = design.materialize(nf, len(design.LEVEL_POOLS) - 1, "str")
+    finally:
+        design.LEVEL_POOLS.pop()
+    mode = res["mode"]
+    base = dict(base, mode=mode, sel=res["sel"], unseen_in=res["vs"], newframe={k: c["v"] for k, c in nf["cols"].items()})
+    old = config["EVAL_UNSEEN_CATEGORIES"]
+    config["EVAL_UNSEEN_CATEGORIES"] = mode
+    try:
+        for part in ("common", "group"):
+            mat = getattr(dm, part)
+            want = res[part]
+            if mat is None:
+                continue
+            with warnings.catch_warnings(record=True) as wlist:
+                warnings.simplefilter("always")
+                try:
+                    got = mat.evaluate_new_data(new)
+                    st = "ok"
+                except Exception as e:  # pylint: disable=broad-except
+                    got, st = e, "raise"
+            warned = any("not present in the original data set" in str(w.message) for w in wlist)
+            if want["status"] == "raise":
+                if st != "raise":
+                    out.append((["C10"], {"clause": "unseen_level_not_refused_in_error_mode", "part": part}, base))
+                elif not isinstance(got, ValueError):
+                    out.append((["C10"], {"clause": "wrong_exception_for_unseen_level", "part": part, "exc": type(got).__name__}, base))
+                continue
+            if st == "raise":
+                out.append((["C10"], {"clause": "exception_in_" + mode + "_mode", "part": part, "exc": type(got).__name__}, dict(base, error=str(got)[:200])))
+                continue
+            g = design.to_int_matrix(got.design_matrix)
+            if g != want[part]:
+                out.append((["C10"], {"clause": "cells_differ_from_unseen_level_rule", "part": part, "mode": mode}, dict(base, got=g, want=want[part])))
+            if part == "group":
+                gs = [[s.start, s.stop] for s in got.slices.values()]
+                if gs != [list(x) for x in want["slices"]]:
+                    out.append((["C10", "C17"], {"clause": "slices_differ", "part": part}, dict(base, got=gs, want=want["slices"])))
+                fn = [":".join(f) for f in want["factors_new"]]
+                if list(got.factors_with_new_levels) != fn:
+                    out.append((["C10"], {"clause": "factors_with_new_levels_differ"}, dict(base, got=list(got.factors_with_new_levels), want=fn)))
+            # warning mode warns iff something is unseen in this part; silent / no unseen: no formulae warning
+            any_unseen = bool(res["vs"]) and _part_sees(case, part, res["vs"])
+            if mode == "warning" and any_unseen and not warned:
+                out.append((["C10"], {"clause": "no_warning_in_warning_mode", "part": part}, base))
+            if (mode == "silent" or not any_unseen) and warned:
+                out.append((["C10"], {"clause": "warning_although_silent_or_nothing_unseen", "part": part, "mode": mode}, base))
+    finally:
+        config["EVAL_UNSEEN_CATEGORIES"] = old
+    return out
+
+
+FORM_VARS = {}
+
+
+def _part_sees(case, part, vs):
+    """Does the evaluated part use one of the variables that hold an unseen level?"""
+    txt = case["txt"]
+    rhs = txt.split("~", 1)[1] if "~" in txt else txt
+    import re
+
+    groups = re.findall(r"\(([^()]*\|[^()]*)\)", rhs)
+    common_txt = re.sub(r"\([^()]*\|[^()]*\)", "", rhs)
+    src = " ".join(groups) if part == "group" else common_txt
+    toks = set(re.findall(r"[a-z]+", src))
+    return any(v in toks for v in vs)
+
+
+def run(rep, prop, seed, n=3, nf=3, ng=2, xfull=False, naops=False, permops=False, maxsel=0, unseen=False, subset=None, sample=None, timeout=3000):
     tmp = tlc.scratch_dir("fv_dmc_")
     try:
         out = os.path.join(tmp, "cases.ndjson")
         cfg = common.write_cfg(
             os.path.join(tmp, "Design_MC.cfg"),
-            constants={"N": n, "NF": nf, "NG": ng, "XFull": xfull, "DoExport": True, "NAOps": naops, "PermOps": permops, "MaxSel": maxsel},
+            constants={"N": n, "NF": nf, "NG": ng, "XFull": xfull, "DoExport": True, "NAOps": naops, "PermOps": permops, "MaxSel": maxsel, "UnseenOps": unseen, "SubsetOps": (maxsel > 0 and not unseen) if subset is None else subset},
             invariants=INVARIANTS,
             properties=PROPERTIES,
         )
         res = tlc.run_tlc("Design_MC", cfg=cfg, env={"FV_OUT": out}, workers=16, heap="12g", timeout=timeout, allow_violation=True)
-        rep.add_tlc(f"Design_MC N={n} NF={nf} NG={ng} na={naops} perm={permops} sel={maxsel}", res)
+        rep.add_tlc(f"Design_MC N={n} NF={nf} NG={ng} na={naops} perm={permops} sel={maxsel} unseen={unseen}", res)
         if res.violated:
             rep.violation({"clause": "spec_level:" + ",".join(res.violated), "site": "Design.tla"}, {"tlc_tail": res.out[-3000:]})
             return
         cases = tlc.read_export(out)
         # each check replays only the cases that serve its property
-        want_phase = {"C06": ("evaluated",), "C08": ("built",), "C09": ("built",)}.get(prop, ("built",))
+        want_phase = {"C06": ("evaluated",), "C10": ("evaluated",), "C08": ("built",), "C09": ("built",)}.get(prop, ("built",))
         want_opn = {"C08": (0, 1), "C09": (2,), "C06": (0,)}.get(prop, (0,))
         cases = [c for c in cases if c["phase"] in want_phase and c["opn"] in want_opn]
+        rep.count("s2c_cases_enumerated", len(cases))
+        if sample and len(cases) > sample:
+            rng = random.Random(seed)
+            cases = rng.sample(cases, sample)
+            rep.notes["s2c_replay_sampled"] = True
         results = common.pool_map(_replay, [(c, seed) for c in cases])
         for c, (problems, ood) in zip(cases, results):
             rep.cov["evaluations"] += 1
